@@ -61,6 +61,10 @@ type dhStore struct {
 	mh2raw   map[string]multihash.Multihash
 	metadata map[string][]byte // b58(sha256(vk)) -> encrypted metadata as served
 	provs    map[string]*model.ProviderInfo
+	// wrong: what the single-provider endpoint answers for this provider
+	// instead of its record (another provider's record, or an empty one);
+	// such a provider is left out of the full list too
+	wrong map[string]*model.ProviderInfo
 }
 
 func (s *dhStore) ServeHTTP(w http.ResponseWriter, req *http.Request) {
@@ -92,12 +96,18 @@ func (s *dhStore) ServeHTTP(w http.ResponseWriter, req *http.Request) {
 		}
 		sort.Strings(ks)
 		for _, k := range ks {
+			if _, bad := s.wrong[k]; bad {
+				continue
+			}
 			list = append(list, s.provs[k])
 		}
 		w.Header().Set("Content-Type", "application/json")
 		json.NewEncoder(w).Encode(list)
 	case strings.HasPrefix(p, "providers/"):
 		pi, ok := s.provs[strings.TrimPrefix(p, "providers/")]
+		if w, bad := s.wrong[strings.TrimPrefix(p, "providers/")]; bad {
+			pi, ok = w, true
+		}
 		if !ok {
 			http.Error(w, "", http.StatusNotFound)
 			return
@@ -151,6 +161,20 @@ func runC12(r *simkit.Run, c Cfg) {
 	// find makes of the extra provider, the indexed entries come back and
 	// nothing panics
 	xprov := KeyedIdentity("secp256k1", 1, "V8")
+	// the provider endpoint answers a lookup of one provider with the record
+	// of another, or with an empty record: that is no information about the
+	// provider asked for; its entries are not resolved, and nobody else is
+	// named in their place
+	var misreported *Ident
+	if byzantine && tp.Chance(1, 5, "wrongRecord") {
+		misreported = provs[tp.Choose(len(provs), "wrongRecord.p")]
+		other := provs[(tp.Choose(len(provs)-1, "wrongRecord.q")+1+indexOfIdent(provs, misreported))%len(provs)]
+		st.wrong = map[string]*model.ProviderInfo{misreported.ID.String(): st.provs[other.ID.String()]}
+		if tp.Chance(1, 3, "wrongRecord.empty") {
+			st.wrong[misreported.ID.String()] = &model.ProviderInfo{}
+		}
+		r.Fault("byzantine-provider-endpoint-answers-with-another-record")
+	}
 	if byzantine && tp.Chance(1, 4, "shortExtended") {
 		pi := st.provs[provs[tp.Choose(len(provs), "shortExtended.p")].ID.String()]
 		pi.ExtendedProviders = &model.ExtendedProviders{Providers: []peer.AddrInfo{{ID: xprov.ID, Addrs: pi.AddrInfo.Addrs}}}
@@ -417,10 +441,13 @@ func runC12(r *simkit.Run, c Cfg) {
 				resp, err := cl.Find(ctx, mh)
 				cancel()
 				bad := cancelled
-				_ = req0
-				// a transport fault anywhere earlier may have left the
-				// provider cache with a negative entry for a provider
-				for _, q := range net.Requests() {
+				// transport faults excuse the find they hit, not later ones:
+				// a provider lookup that failed says nothing about the
+				// provider, and nothing else is remembered between finds.
+				// (The provider cache's preload / refresh requests are not
+				// part of any find; a failed one leaves providers to be
+				// fetched one by one.)
+				for _, q := range net.Requests()[req0:] {
 					if !q.Fault.Benign() && !ctxReq[q] {
 						bad = true
 					}
@@ -435,7 +462,7 @@ func runC12(r *simkit.Run, c Cfg) {
 				}
 				var want []model.ProviderResult
 				for _, e := range index[string(mh)] {
-					if e.tamper != dtNone || (e.prov == unknownProv && !mdOnly) {
+					if e.tamper != dtNone || ((e.prov == unknownProv || e.prov == misreported) && !mdOnly) {
 						// (a metadata-only client does not look providers up:
 						// it reports an entry of a provider nobody knows too)
 						continue
@@ -521,6 +548,15 @@ func runC12(r *simkit.Run, c Cfg) {
 		}
 		r.Advance(time.Second)
 	}
+}
+
+func indexOfIdent(ids []*Ident, x *Ident) int {
+	for i, id := range ids {
+		if id == x {
+			return i
+		}
+	}
+	return 0
 }
 
 func nres(r *model.FindResponse) int {
